@@ -132,7 +132,9 @@ impl ReadMem {
 
     /// Returns maximum read length that corresponding ack length fit into `maximum_ack_len`.
     pub fn maximum_read_length(maximum_ack_len: usize) -> u16 {
-        (maximum_ack_len - CommandPacket::<ReadMem>::ACK_HEADER_LENGTH)
+        // An acknowledge that can't even hold its header carries no data at all.
+        maximum_ack_len
+            .saturating_sub(CommandPacket::<ReadMem>::ACK_HEADER_LENGTH)
             .try_into()
             .unwrap_or(u16::MAX)
     }
